@@ -246,7 +246,8 @@ def o5(h, st):
         xyz = [("H", (0.0, 0.0, 0.0)), ("H", (0.1, 0.2, 0.8)), ("H", (1.3, 0.1, 1.0)), ("H", (1.5, -0.6, 2.1))]
     else:
         xyz = [("H", (0.0, 0.0, 0.9 * k)) for k in range(4)]
-    mol = SecondQuantizedMolecule(xyz, 0, 0, basis="minao")
+    basis = "minao" if st["loc"] == "meta_lowdin" else "3-21g"       # IAO localisation refuses minimal basis sets
+    mol = SecondQuantizedMolecule(xyz, 0, 0, basis=basis)
     loc = Localization.meta_lowdin if st["loc"] == "meta_lowdin" else Localization.iao
     opts = {"molecule": mol, "fragment_atoms": list(st["frags"]), "fragment_solvers": st["solver"], "electron_localization": loc, "verbose": False}
     d = h.call(DM, "DMETProblemDecomposition", opts)
@@ -261,7 +262,7 @@ def o5(h, st):
     if len(st["frags"]) > 1:
         # relabel: reversed atom order with the corresponding nested fragment lists
         order = list(range(4))[::-1]
-        mol2 = SecondQuantizedMolecule([xyz[i] for i in order], 0, 0, basis="minao")
+        mol2 = SecondQuantizedMolecule([xyz[i] for i in order], 0, 0, basis=basis)
         opts2 = {"molecule": mol2, "fragment_atoms": list(st["frags"])[::-1], "fragment_solvers": st["solver"], "electron_localization": loc, "verbose": False}
         d2 = h.call(DM, "DMETProblemDecomposition", opts2)
         h.call(DM, "DMETProblemDecomposition.build", d2)
@@ -269,7 +270,7 @@ def o5(h, st):
         h.check("energy invariant under relabelling the atoms", abs(e - e2) < 1e-5, detail=f"{e} vs {e2}")
         # the same fragments requested as (interleaved) index lists on a shuffled molecule
         shuffle = [2, 0, 3, 1]                     # new position k holds original atom shuffle[k]
-        mol3 = SecondQuantizedMolecule([xyz[i] for i in shuffle], 0, 0, basis="minao")
+        mol3 = SecondQuantizedMolecule([xyz[i] for i in shuffle], 0, 0, basis=basis)
         pos, nested, k = {a: kk for kk, a in enumerate(shuffle)}, [], 0
         for size in st["frags"]:
             nested.append([pos[a] for a in range(k, k + size)])
